@@ -35,16 +35,15 @@ SCHEMA_STMT = re.compile(r"^\s*((CREATE|DROP|ALTER)\s+(SCHEMA|DATABASE)|COMMENT\
 
 def run_probe(ctx):
     """Builds and runs the probe; returns the records or raises RuntimeError (check broken)."""
-    src = os.path.join(HERE, "c16_probe", "probe_test.go")
-    virt = os.path.join(REPO, "cmd", "atlas", "internal", "c16probe", "probe_test.go")
-    if os.path.exists(os.path.dirname(virt)):
+    vdir = os.path.join(REPO, "cmd", "atlas", "internal", "c16probe")
+    if os.path.exists(vdir):
         raise RuntimeError("the tree already has cmd/atlas/internal/c16probe")
     ov = os.path.join(ctx.scratch, "overlay.json")
-    json.dump({"Replace": {virt: src}}, open(ov, "w"))
+    json.dump({"Replace": {os.path.join(vdir, f): os.path.join(HERE, "c16_probe", f) for f in ("probe_test.go", "cli_test.go")}}, open(ov, "w"))
     exe = os.path.join(ctx.scratch, "c16probe.test")
     env = dict(os.environ, GOFLAGS="-mod=mod", GOPROXY="off", GOSUMDB="off", GOTOOLCHAIN="local", GIT_CONFIG_GLOBAL="/dev/null")
     go = GO_CLI if os.path.exists(GO_CLI) else "go"
-    r = subprocess.run([go, "test", "-vet=off", "-overlay", ov, "-c", "-o", exe, "./internal/c16probe/"],
+    r = subprocess.run([go, "test", "-vet=off", "-trimpath", "-overlay", ov, "-c", "-o", exe, "./internal/c16probe/"],
                        cwd=os.path.join(REPO, "cmd", "atlas"), env=env, capture_output=True, text=True)
     if r.returncode != 0:
         raise RuntimeError("probe build failed: " + r.stderr[-3000:])
@@ -53,7 +52,89 @@ def run_probe(ctx):
     r = subprocess.run([exe, "-test.run", "TestProbe", "-test.count=1"], cwd=ctx.scratch, env=env, capture_output=True, text=True, timeout=600)
     if r.returncode != 0:
         raise RuntimeError("probe failed: " + (r.stdout + r.stderr)[-3000:])
-    return [json.loads(l) for l in open(out) if l.strip()]
+    return [json.loads(l) for l in open(out) if l.strip()], exe, env
+
+
+def cli_cases():
+    cases = []
+    for scheme in ("c16mysql", "c16postgres"):
+        for cur, des in (("empty", "v2"), ("v1", "v2"), ("v2", "v1")):
+            for tx in ("file", "none"):
+                cases.append({"scheme": scheme, "cmd": "apply", "current": cur, "desired": des, "args": ["--tx-mode", tx, "--auto-approve"]})
+        cases.append({"scheme": scheme, "cmd": "apply", "current": "v1", "desired": "v2", "args": ["--auto-approve"]})
+        cases.append({"scheme": scheme, "cmd": "apply", "current": "v1", "desired": "v2", "args": ["--dry-run"]})
+        cases.append({"scheme": scheme, "cmd": "apply", "current": "v1", "desired": "v2", "args": ["--dry-run", "--tx-mode", "none"]})
+        for tx in ("file", "none"):
+            cases.append({"scheme": scheme, "cmd": "apply", "current": "v1", "desired": "two", "args": ["--tx-mode", tx, "--auto-approve"]})
+        for fmt in ("{{ sql . }}", '{{ sql . "  " }}'):
+            cases.append({"scheme": scheme, "cmd": "inspect", "current": "v2", "desired": "v2", "args": ["--format", fmt]})
+    return cases
+
+
+def run_cli(ctx, exe, env, case, i):
+    out = os.path.join(ctx.scratch, "cli-%d.json" % i)
+    e = dict(env, C16_PROBE_CASE=json.dumps(case), C16_PROBE_OUT=out, ATLAS_NO_UPDATE_NOTIFIER="1", ATLAS_NO_UPGRADE_SUGGESTIONS="1")
+    wd = os.path.join(ctx.scratch, "cli-%d" % i)
+    os.makedirs(wd, exist_ok=True)
+    e.update(HOME=wd, TMPDIR=wd)
+    r = subprocess.run([exe, "-test.run", "^TestCLI$", "-test.count=1"], cwd=wd, env=e, capture_output=True, text=True, timeout=300)
+    if r.returncode != 0 or not os.path.exists(out):
+        return None, (r.stdout + r.stderr)[-2000:]
+    return json.load(open(out)), ""
+
+
+def judge_cli(ctx, case, o, verbose=False):
+    d = case["scheme"][3:]
+    tx = "default"
+    if "--tx-mode" in case["args"]:
+        tx = case["args"][case["args"].index("--tx-mode") + 1]
+    dry = "--dry-run" in case["args"]
+    if verbose:
+        print("---", json.dumps(case), "\n" + o["out"] + ("error: " + o["err"] if o.get("err") else ""))
+        print("ApplyChanges calls:", o["apply_calls"], "qualifier options:", o["options"])
+        for s in o["executed"] or []:
+            print("executed:", s)
+    executed = o.get("executed") or []
+    ctx.eval(vlib.digest(case["scheme"], case["cmd"], o["out"], o.get("err"), executed), True)
+    ctx.count("cli:%s:%s:tx=%s%s" % (d, case["cmd"], tx, ":dry-run" if dry else ""))
+    ctx.count("cli-executed-stmts:" + d, len(executed))
+    detail = {"out": o["out"], "err": o.get("err"), "executed": executed, "apply_qualifier_options": o.get("options")}
+    if case["cmd"] == "inspect":
+        pre = "cli|%s|schema inspect|" % d
+        if o.get("err") or "t_users" not in o["out"]:
+            ctx.inconclusive("cli-inspect-no-output")
+        elif MARKER in o["out"].lower() or SCHEMA_STMT.search(o["out"]):
+            ctx.violation(pre + "marker-leak", "`schema inspect --format '%s'` on a schema-bound URL prints SQL that mentions / creates the schema" % case["args"][-1], case, detail)
+        return
+    pre = "cli|%s|schema apply|tx-mode=%s|" % (d, tx)
+    if case["desired"] == "two":
+        # desired state with a second schema on a URL bound to one schema: whatever the CLI decides
+        # (it ignores the foreign schema or fails), nothing executed may name the connected schema.
+        ctx.count("cli-two-schema-desired:%s:%s" % (d, "error" if o.get("err") else "applied"))
+        if o.get("err"):
+            return
+        if any("t_other" in x for x in executed):
+            ctx.violation(pre + "multi-schema-applied", "`schema apply` on a URL bound to one schema executed changes of a table of another schema instead of rejecting (or ignoring) them", case, detail)
+            return
+    elif o.get("err"):
+        ctx.violation(pre + "error", "`schema apply` failed on a one-schema desired state: " + o["err"], case, detail)
+        return
+    if dry:
+        if executed:
+            ctx.violation(pre + "dry-run-executes", "`schema apply --dry-run` executed statements", case, detail)
+    elif not executed:
+        ctx.inconclusive("cli-apply-nothing-executed")
+        return
+    if MARKER in o["out"].lower():
+        ctx.violation(pre + "printed-marker-leak", "the plan printed by `schema apply` on a URL bound to schema %s mentions the schema name" % MARKER, case, detail)
+    bad = [s for s in executed if MARKER in s.lower()]
+    if bad:
+        ctx.violation(pre + "executed-marker-leak", "`schema apply` on a URL bound to schema %s executes statements that mention the schema name: %s" % (MARKER, bad[0][:200]), case, detail)
+    bad = [s for s in executed if SCHEMA_STMT.search(s)]
+    if bad:
+        ctx.violation(pre + "executed-schema-stmt", "`schema apply` on a schema-bound URL executes a statement that creates/drops/alters a schema: %s" % bad[0][:200], case, detail)
+    if len(ctx.samples) < 3 and tx == "none" and not dry and case["current"] == "v1":
+        ctx.sample({"case": case, "verdict": "held", "executed": executed[:6], "apply_qualifier_options": o.get("options")})
 
 
 def squash(s):
@@ -117,21 +198,44 @@ def judge(ctx, recs, only=None, verbose=False):
 def main():
     ctx = vlib.Ctx("C16")
     try:
-        recs = run_probe(ctx)
+        recs, exe, env = run_probe(ctx)
     except RuntimeError as e:
         sys.stderr.write("c16.py: %s\n" % e)
         sys.exit(2)
     if ctx.replay:
-        judge(ctx, recs, only=ctx.load_replay_case(), verbose=True)
+        case = ctx.load_replay_case()
+        if "scheme" in case:
+            o, why = run_cli(ctx, exe, env, case, 0)
+            if o is None:
+                sys.stderr.write("c16.py: CLI probe failed: %s\n" % why)
+                sys.exit(2)
+            judge_cli(ctx, case, o, verbose=True)
+        else:
+            judge(ctx, recs, only=case, verbose=True)
         print("VIOLATED" if ctx.violations() else "held")
         sys.exit(1 if ctx.violations() else 0)
     control = judge(ctx, recs)
+    cases = cli_cases()
+
+    def one(ic):
+        i, case = ic
+        o, why = run_cli(ctx, exe, env, case, i)
+        if o is None:
+            ctx.inconclusive("cli-probe-crashed")
+            sys.stderr.write("c16.py: CLI probe failed for %s: %s\n" % (json.dumps(case), why))
+            return
+        judge_cli(ctx, case, o)
+    ctx.par(list(enumerate(cases)), one)
+    if ctx.counters.get("cli-executed-stmts:mysql", 0) < 10 or ctx.counters.get("cli-executed-stmts:postgres", 0) < 10:
+        if not ctx.violations():
+            sys.stderr.write("c16.py: the CLI probe executed (recorded) too few statements\n")
+            sys.exit(2)
     for d in ("mysql", "postgres"):
         ctx.count("control:unbound-client-prints-marker:" + d, control.get(d, 0))
         if not control.get(d) and not ctx.violations():
             sys.stderr.write("c16.py: control failed: the unbound %s client never printed the schema name\n" % d)
             sys.exit(2)
-    ctx.finish("real cmdlog `sql` template function (schema diff / schema inspect --format), compiled into the CLI module through a go overlay and driven with a plan-only mysql/postgres client bound to schema zzmarkerzz: one-schema change sets of the real differ (create, modify, drop) × templates {{ sql . }}, {{ sql . \"  \" }}, {{ sql . \"\\t\" }}, {{ sql . \"\" }}, default diff template ⇒ schema name absent, no schema statement, same statements modulo white space; two-schema sets ⇒ error; unbound client = control (schema name printed). distinct = distinct rendered text",
+    ctx.finish("real cmdlog `sql` template function (schema diff / schema inspect --format), compiled into the CLI module through a go overlay and driven with a plan-only mysql/postgres client bound to schema zzmarkerzz: one-schema change sets of the real differ (create, modify, drop) × templates {{ sql . }}, {{ sql . \"  \" }}, {{ sql . \"\\t\" }}, {{ sql . \"\" }}, default diff template ⇒ schema name absent, no schema statement, same statements modulo white space; two-schema sets ⇒ error; unbound client = control (schema name printed). Plus the real cobra tree (cmdapi.Root) on fake c16mysql:// / c16postgres:// URLs bound to the schema (real differs / planners / HCL codecs, ApplyChanges records the statements planned with the options the CLI passed): `schema apply` current {empty, v1, v2} -> desired × --tx-mode {file, none, default} × {--auto-approve, --dry-run}, and `schema inspect --format`: printed plan and every executed statement free of the schema name and of schema statements, dry-run executes nothing. distinct = distinct rendered text / (output, executed statements)",
                {"records": len(recs)})
 
 
